@@ -31,9 +31,10 @@ def shards(tier, seed):
     for kind in ("GaussianPDF", "GaussianDiagPDF"):
         for D in BOUNDS[tier]["D"]:
             out.append(dict(id="C05/marg/%s/D%d" % (kind, D), part="marg", kind=kind, D=D, cost=D * D, facts=dict(kind=kind, D=D)))
-    for D in (1, 2, 3):
-        for Ds in range(1, D + 1):
-            out.append(dict(id="C05/linsum/D%d.Ds%d" % (D, Ds), part="linsum", kind="GaussianPDF", D=D, Ds=Ds, cost=D * 3, facts=dict(D=D, Ds=Ds)))
+    for kind in ("GaussianPDF", "GaussianDiagPDF"):
+        for D in (1, 2, 3):
+            for Ds in range(1, D + 1):
+                out.append(dict(id="C05/linsum/%s/D%d.Ds%d" % (kind, D, Ds), part="linsum", kind=kind, D=D, Ds=Ds, cost=D * 3, facts=dict(kind=kind, D=D, Ds=Ds)))
     return out
 
 
@@ -121,9 +122,9 @@ def run_linsum(shard, ctx):
     for R in (1, 2, 3) if tier == "thorough" else (1, 2):
         vi = 0 if R == 1 else 100
         tag = ("c05ls", D, R)
-        Sig = objs.spd_batch(D, R, vi, seed, tag)
+        Sig = objs.spd_batch(D, R, vi, seed, tag, diag="Diag" in shard["kind"])
         mu = objs.vec_batch(D, R, vi, seed, tag)
-        p = objs.mk_pdf("GaussianPDF", Sig, mu)
+        p = objs.mk_pdf(shard["kind"], Sig, mu)
         N = 3
         ys = al.points(N, Ds, salt=D)
         for wi, W in enumerate(Ws):
@@ -154,3 +155,6 @@ def run_linsum(shard, ctx):
                         m, S = rm.pushforward(mu[r], Sig[r], Wb[r], br)
                         ref[r] = rm.gauss_logpdf(ys, m, S)
                     ctx.close("linear_sum.value", got, ref, facts=facts)
+                    Sq, Lq = np.asarray(q.Sigma), np.asarray(q.Lambda)
+                    ctx.close("linear_sum.SigmaLambda", np.einsum("rij,rjk->rik", Sq, Lq), np.tile(np.eye(Ds)[None], (R, 1, 1)), symptom="incoherent", facts=facts)
+                    ctx.close("linear_sum.entropy", np.asarray(q.entropy()), np.array([rm.entropy(rm.pushforward(mu[r], Sig[r], Wb[r])[1]) for r in range(R)]), facts=facts)
